@@ -62,6 +62,9 @@ def minres(
 
     # Create space for matmul product, solution
     prod = mm_(rhs)
+    # a closure may return (a view of) its argument (identity): the product is updated in place below
+    if prod.untyped_storage().data_ptr() == rhs.untyped_storage().data_ptr():
+        prod = prod.clone()
     if value is not None:
         prod.mul_(value)
 
@@ -131,6 +134,8 @@ def minres(
     for i in range(max_iter + 2):
         # Perform matmul
         prod = mm_(qvec_prev1)
+        if prod.untyped_storage().data_ptr() == qvec_prev1.untyped_storage().data_ptr():
+            prod = prod.clone()
         if value is not None:
             prod.mul_(value)
 
